@@ -95,17 +95,29 @@ static NO_TSAN int alloc_must_fail(void *ra)
     return 0;
 }
 #define RA __builtin_extract_return_addr(__builtin_return_address(0))
-void *__wrap_malloc(size_t n) { if (alloc_must_fail(RA)) { errno = ENOMEM; return NULL; } void *p = malloc(n); led_add(p, n); return p; }
-void *__wrap_calloc(size_t a, size_t b) { if (alloc_must_fail(RA)) { errno = ENOMEM; return NULL; } void *p = calloc(a, b); led_add(p, a * b); return p; }
+/* no workload of any engine needs the library to hold more than a few MiB (1 MiB objects, 32 fragments, 1 MiB of GF tables): a single
+ * request of 1 GiB or 3 GiB live is a runaway (a length that went negative, a loop that lost its bound). It is reported and this
+ * process ends before the machine's memory does; the supervisor resumes after the case. */
+static NO_TSAN void led_guard(size_t n)
+{
+    if (n < ((size_t)1 << 30) && (size_t)led_bytes + n < ((size_t)3 << 30)) return;
+    vh_violation("allocation-runaway", "library asks for %zu bytes with %ld bytes in %d blocks live", n, led_bytes, led_n);
+    fprintf(stderr, "allocation runaway: request of %zu bytes with %ld live\n", n, led_bytes); fflush(NULL);
+    _exit(76);
+}
+void *__wrap_malloc(size_t n) { if (alloc_must_fail(RA)) { errno = ENOMEM; return NULL; } led_guard(n); void *p = malloc(n); led_add(p, n); return p; }
+void *__wrap_calloc(size_t a, size_t b) { if (alloc_must_fail(RA)) { errno = ENOMEM; return NULL; } led_guard(b && a > ((size_t)1 << 40) / b ? (size_t)1 << 40 : a * b); void *p = calloc(a, b); led_add(p, a * b); return p; }
 void *__wrap_realloc(void *q, size_t n)
 {
     if (alloc_must_fail(RA)) { errno = ENOMEM; return NULL; }
+    led_guard(n);
     if (q) led_del(q);
     void *p = realloc(q, n); led_add(p, n); return p;
 }
 int __wrap_posix_memalign(void **out, size_t al, size_t n)
 {
     if (alloc_must_fail(RA)) return ENOMEM;
+    led_guard(n);
     int rc = posix_memalign(out, al, n);
     if (rc == 0) led_add(*out, n);
     return rc;
@@ -332,6 +344,32 @@ static int quiet;
 void vh_quiet(int q) { quiet = q; }
 const char *vh_only_key(void) { return opt_only; }
 void vh_scratch_path(char *buf, size_t n, const char *suffix) { snprintf(buf, n, "%s.w%d.%s", opt_out, W, suffix); }
+/* resident set of a process in MiB (0 if it cannot be read) */
+long vh_rss_mb(pid_t pid)
+{
+    char pth[64], b[128]; snprintf(pth, sizeof pth, "/proc/%d/statm", (int)pid);
+    int fd = open(pth, O_RDONLY); if (fd < 0) return 0;
+    ssize_t n = read(fd, b, sizeof b - 1); close(fd); if (n <= 0) return 0; b[n] = 0;
+    long size = 0, res = 0; if (sscanf(b, "%ld %ld", &size, &res) != 2) return 0;
+    return res * (sysconf(_SC_PAGESIZE) / 1024) / 1024;
+}
+/* wait for a child an engine forked for one execution; a child that grows beyond the limit is ended (returns 1) */
+int vh_wait_child(pid_t p, int *status)
+{
+    /* sleep on SIGCHLD (blocked, taken synchronously) so that the child's exit wakes us at once; look at its size every 50 ms */
+    sigset_t m, old; sigemptyset(&m); sigaddset(&m, SIGCHLD); sigprocmask(SIG_BLOCK, &m, &old);
+    int killed = 0;
+    for (;;) {
+        pid_t r = waitpid(p, status, WNOHANG);
+        if (r == p) break;
+        if (r < 0) { *status = 0; break; }
+        struct timespec to = { 0, 50 * 1000 * 1000 };
+        if (sigtimedwait(&m, NULL, &to) < 0 && vh_rss_mb(p) > VH_RSS_LIMIT_MB) { kill(p, SIGKILL); waitpid(p, status, 0); killed = 1; break; }
+    }
+    sigprocmask(SIG_SETMASK, &old, NULL);
+    return killed;
+}
+
 void vh_violation(const char *site, const char *fmt, ...)
 {
     if (!SH || quiet) return;
@@ -401,6 +439,7 @@ static int run_worker(void)
             int fd = open(errfile, O_WRONLY | O_CREAT | O_TRUNC, 0644);
             if (fd >= 0) { dup2(fd, 2); close(fd); }
             struct rlimit rl = { 0, 0 }; setrlimit(RLIMIT_CORE, &rl);
+            setpgid(0, 0);                      /* the executor and whatever it forks: one group, ended together */
             x_group = -1;
             ENGINE();
             finish_case(s);
@@ -408,20 +447,23 @@ static int run_worker(void)
             fflush(NULL);
             _exit(0);
         }
-        long hb = s->heartbeat; double last = now(); int status = 0; int hung = 0;
+        long hb = s->heartbeat; double last = now(); int status = 0; int hung = 0, bloated = 0;
         for (;;) {
             pid_t r = waitpid(pid, &status, WNOHANG);
             if (r == pid) break;
             struct timespec ts = { 0, 20 * 1000 * 1000 }; nanosleep(&ts, NULL);
+            if (vh_rss_mb(pid) > VH_RSS_LIMIT_MB) { bloated = 1; kill(-pid, SIGKILL); kill(pid, SIGKILL); waitpid(pid, &status, 0); break; }
             if (s->heartbeat != hb) { hb = s->heartbeat; last = now(); }
-            else if (now() - last > opt_case_timeout) { hung = 1; kill(pid, SIGKILL); waitpid(pid, &status, 0); break; }
+            else if (now() - last > opt_case_timeout) { hung = 1; kill(-pid, SIGKILL); kill(pid, SIGKILL); waitpid(pid, &status, 0); break; }
         }
+        kill(-pid, SIGKILL);                    /* children an executor left behind when it died */
         if (!hung && WIFEXITED(status) && WEXITSTATUS(status) == 0) return 0;
         if (!hung && WIFEXITED(status) && WEXITSTATUS(status) == 2) { out_line("E", "executor reported a harness error", NULL, NULL); return 2; }
         /* crash / hang: attribute to the current case */
         char key[800], cls[96], det[2048], st[320];
         cur_key(key, sizeof key);
-        if (hung) { snprintf(cls, sizeof cls, "hang"); snprintf(det, sizeof det, "no progress for %.0f s", opt_case_timeout);
+        if (bloated) { snprintf(cls, sizeof cls, "memory-runaway"); snprintf(det, sizeof det, "the process executing this case grew beyond %d MiB resident and was ended", VH_RSS_LIMIT_MB); }
+        else if (hung) { snprintf(cls, sizeof cls, "hang"); snprintf(det, sizeof det, "no progress for %.0f s", opt_case_timeout);
                     /* every hang costs the full time limit: three in one worker are enough to report, stop the run */
                     if (++s->hangs >= 3) SH->stop = 1; }
         else if (WIFSIGNALED(status)) vh_classify_crash(errfile, WTERMSIG(status), cls, sizeof cls, det, sizeof det);
